@@ -15,7 +15,7 @@ PROPERTY = 'C13'
 LEVEL = 'exploration'
 RULE = ('cases = (join, tables, threshold pair, operator) on seeded random tables, mutation '
         'neighbourhoods for edit distance, the bundled person data and samples of the bundled books '
-        'data (thorough: 1200-row samples of books, 5000-row Zipf tables), tables whose pairs score exactly the stricter threshold (sets up to 64 tokens); each case runs the join transposed, at two thresholds and '
+        'data (thorough: 1200-row samples of books, 5000-row Zipf tables), tables whose pairs score exactly the stricter threshold (sets up to 64 tokens), rare-shared-token tables with and without the score column, ambiguous token sets; each case runs the join transposed, at two thresholds and '
         'with the three operators. Non-trivial = the laxer join returns at least one pair that is '
         'neither both-empty nor missing; distinct = case seed.')
 ASSUMPTIONS = ['py_stringmatching tokenizers are trusted (used only to classify straddling pairs)']
